@@ -3,7 +3,7 @@
    H / dsha256 is ANY function bytes -> bytes (pycoin passes double SHA-256); the transaction codec
    (parse_tx, stream_tx, tx_hash) is ANY codec meeting the hypotheses written in the statements. *)
 From PV Require Import Base.Bytes Base.Outcome Base.Varint Model.Merkle Model.Block Model.MerkleBlock
-  Spec.MerkleSpec Spec.PartialMerkle Proofs.MerkleP Proofs.BlockP Proofs.MerkleBlockP Proofs.C14Tie Model.BlockObj Proofs.BlockObjP.
+  Spec.MerkleSpec Spec.PartialMerkle Proofs.MerkleP Proofs.BlockP Proofs.MerkleBlockP Proofs.C14Tie Model.BlockObj Proofs.BlockObjP Model.BlockCall Proofs.BlockCallP.
 
 (* ---- tie to the source: the layouts the models transcribe are the ones /repo uses now -------------------- *)
 (* block header "L##LLL", count "I", merkleblock "header:z total_transactions:L hashes:[#] flags:[1]" with
@@ -70,6 +70,71 @@ Theorem C14_id_after_any_history : forall (dsha256 : bytes -> bytes) (o : block_
     obj_run dsha256 o ops ++ [Ret (dsha256 s); Ret (rev (dsha256 s)); Ret s].
 Proof. exact id_after_any_history. Qed.
 Print Assumptions C14_id_after_any_history.
+
+(* ---- calling conventions ------------------------------------------------------------------------------------------ *)
+(* inspect.signature of every public entry point of block.py / merkle.py / the merkleblock parser on the current tree
+   (Gen/GenSigC14.v, regenerated each run) starts with the pinned parameters, same names and defaults, and adds only
+   defaulted ones: a call written against the pinned signature binds the same way *)
+Theorem C14_signatures_as_pinned : signatures_compatible = true.
+Proof. exact signatures_ok. Qed.
+Print Assumptions C14_signatures_as_pinned.
+
+(* Python's argument binding for Block.parse(f, include_transactions=True, include_offsets=None, check_merkle_hash=True):
+   positional in the documented order with 0..3 arguments = keywords in any order and any subset = mixed = defaults;
+   a 4th positional, a repeated or unknown keyword is TypeError before anything is read *)
+Theorem C14_parse_call_binding : forall a b c d : pyval,
+  (bind_args block_parse_sig [] [] = Ret [VBool true; VNone; VBool true] /\
+   bind_args block_parse_sig [a] [] = Ret [a; VNone; VBool true] /\
+   bind_args block_parse_sig [a; b] [] = Ret [a; b; VBool true] /\
+   bind_args block_parse_sig [a; b; c] [] = Ret [a; b; c] /\
+   bind_args block_parse_sig [a; b; c; d] [] = Raise E_TYPE) /\
+  (bind_args block_parse_sig [] [(name_include_transactions, a); (name_include_offsets, b); (name_check_merkle_hash, c)] = Ret [a; b; c] /\
+   bind_args block_parse_sig [] [(name_check_merkle_hash, c); (name_include_offsets, b); (name_include_transactions, a)] = Ret [a; b; c] /\
+   bind_args block_parse_sig [] [(name_check_merkle_hash, c)] = Ret [VBool true; VNone; c] /\
+   bind_args block_parse_sig [] [(name_include_offsets, b)] = Ret [VBool true; b; VBool true]) /\
+  (bind_args block_parse_sig [a] [(name_include_offsets, b); (name_check_merkle_hash, c)] = Ret [a; b; c] /\
+   bind_args block_parse_sig [a; b] [(name_check_merkle_hash, c)] = Ret [a; b; c] /\
+   bind_args block_parse_sig [a; b] [(name_include_offsets, b)] = Raise E_TYPE).
+Proof.
+  intros a b c d. split; [|split].
+  - exact (bind_positional a b c d).
+  - destruct (bind_keywords a b c) as (K1 & _ & _ & _ & _ & K6 & _ & K8 & K9 & _). repeat split; assumption.
+  - destruct (bind_mixed a b c) as (M1 & _ & M3 & _ & M5 & _). repeat split; assumption.
+Qed.
+Print Assumptions C14_parse_call_binding.
+
+(* presentation independence: however the call is written, it means block_parse on the truth values of the bound
+   include_transactions and check_merkle_hash (include_offsets does not change what is parsed or checked) *)
+Theorem C14_parse_call_is_bound : forall (tx : Type) (parse_tx : parser tx) (tx_hash : tx -> bytes) (dsha256 : bytes -> bytes)
+    pos kw a b c s, bind_args block_parse_sig pos kw = Ret [a; b; c] ->
+  block_parse_call tx parse_tx tx_hash dsha256 pos kw s =
+  block_parse tx parse_tx tx_hash dsha256 (truthy a) (truthy c) s.
+Proof. exact call_is_bound. Qed.
+Print Assumptions C14_parse_call_is_bound.
+
+(* every call form that asks for the transactions and does not switch the check off rejects a wrong root, e.g.
+   parse(f, True, None), parse(f, True, False), parse(f, True, None, True), parse(f, check_merkle_hash=1) *)
+Theorem C14_bad_root_rejected_any_call : forall (tx : Type) (parse_tx : parser tx) (stream_tx : tx -> bytes)
+    (tx_hash : tx -> bytes) (dsha256 : bytes -> bytes) pos kw a b c (h : header) (ts : list tx),
+  bind_args block_parse_sig pos kw = Ret [a; b; c] -> truthy a = true -> truthy c = true ->
+  tx_parser_consumes tx parse_tx -> wf_header h -> ts <> [] -> (N.of_nat (length ts) < 2 ^ 64)%N ->
+  Forall (tx_frame tx parse_tx stream_tx) ts ->
+  h_merkle_root h <> merkle_root dsha256 (map tx_hash ts) ->
+  exists s, block_stream tx stream_tx (mkBlock tx h ts) = Ret s /\
+    forall rest, block_parse_call tx parse_tx tx_hash dsha256 pos kw (s ++ rest) = Raise E_BADMERKLE.
+Proof. exact bad_root_rejected_any_call. Qed.
+Print Assumptions C14_bad_root_rejected_any_call.
+
+Theorem C14_block_roundtrip_any_call : forall (tx : Type) (parse_tx : parser tx) (stream_tx : tx -> bytes)
+    (tx_hash : tx -> bytes) (dsha256 : bytes -> bytes) pos kw a b c (h : header) (ts : list tx),
+  bind_args block_parse_sig pos kw = Ret [a; b; c] -> truthy a = true ->
+  tx_parser_consumes tx parse_tx -> wf_header h -> ts <> [] -> (N.of_nat (length ts) < 2 ^ 64)%N ->
+  Forall (tx_frame tx parse_tx stream_tx) ts ->
+  h_merkle_root h = merkle_root dsha256 (map tx_hash ts) ->
+  exists s, block_stream tx stream_tx (mkBlock tx h ts) = Ret s /\
+    forall rest, block_parse_call tx parse_tx tx_hash dsha256 pos kw (s ++ rest) = Ret (mkBlock tx h ts, rest).
+Proof. exact roundtrip_any_call. Qed.
+Print Assumptions C14_block_roundtrip_any_call.
 
 (* ---- full blocks (transaction codec abstract) ------------------------------------------------------------ *)
 Theorem C14_block_roundtrip : forall (tx : Type) (parse_tx : parser tx) (stream_tx : tx -> bytes) (tx_hash : tx -> bytes)
@@ -273,3 +338,16 @@ Example C14_ex_history :
   | _ => False
   end.
 Proof. vm_compute. repeat split. discriminate. Qed.
+
+(* the seeded shape: parse(f, True, None) — include_offsets given positionally and falsy — still checks the root *)
+Example C14_ex_call :
+  bind_args block_parse_sig [VBool true; VNone] [] = Ret [VBool true; VNone; VBool true] /\
+  bind_args block_parse_sig [VBool true; VBool false] [] = Ret [VBool true; VBool false; VBool true] /\
+  let txh := fun b : byte => repeatb b 32 in
+  let h := mkHeader 1 (repeatb x11 32) (repeatb x22 32) 5 6 7 in
+  match block_stream byte toy_stream (mkBlock byte h [x01; x02; x03]) with
+  | Ret s => block_parse_call byte toy_parse txh toyH [VBool true; VNone] [] s = Raise E_BADMERKLE /\
+             block_parse_call byte toy_parse txh toyH [VInt 1; VInt 0; VInt 0] [] s = Ret (mkBlock byte h [x01; x02; x03], [])
+  | _ => False
+  end.
+Proof. vm_compute. repeat split. Qed.
